@@ -13,17 +13,19 @@ VARIABLE c
 Bit(m, i) == (m \div i) % 2
 \* lv: where the caller says consistency and serial consistency - 0 on the statement, 1 on the statement's execution profile,
 \* 2 on the session's default profile (the lower-priority places say something else);
+\* bu: the middle statement of the batch is given as text although it has values (the driver prepares it on the fly);
 \* ev: the node has forgotten the prepared statement (first EXECUTE answered UNPREPARED, the driver re-prepares and repeats it);
 \* cp: the session asked for compression, the node offers none; pg: the caller continues from a paging state
-Init == \E k \in 1..7 : \E mask \in 0..15 : \E cl \in {1, 4, 6, 10} : \E vl \in 1..3 : \E sv \in {8, 9} : \E ev \in {0, 1} : \E cp \in {0, 1} : \E pg \in {0, 1} : \E lv \in {0, 1, 2} :
+Init == \E k \in 1..7 : \E mask \in 0..15 : \E cl \in {1, 4, 6, 10} : \E vl \in 1..3 : \E sv \in {8, 9} : \E ev \in {0, 1} : \E cp \in {0, 1} : \E pg \in {0, 1} : \E lv \in {0, 1, 2} : \E bu \in {0, 1} :
           /\ (k \in {1, 2, 6} => vl = 1)                                \* unprepared statements are issued without values
           /\ (ev = 1 => k \in {3, 4, 7})
           /\ (pg = 1 => k \in {6, 7})
+          /\ (bu = 1 => k = 5)
           /\ (cl + mask + vl + k + ev + cp + pg) % 2 = 0 \/ mask \in {0, 15}            \* a covering half of the product
           /\ (lv = 0 \/ (cl + mask + vl + k + ev + cp + pg + lv) % 3 = 0)                \* ... and a third of it for the other two levels
           /\ c = [kind |-> Kinds[k], cl |-> cl, serial |-> <<Bit(mask, 1), sv>>, page |-> <<Bit(mask, 2), 7>>, ts |-> <<Bit(mask, 4), 1234567>>,
                   tracing |-> Bit(mask, 8), idem |-> mask % 2, values |-> IF k \in {1, 2, 6} THEN << >> ELSE ValueLists[vl], btype |-> mask % 3,
-                  evict |-> ev, comp |-> cp, lvl |-> lv, ps |-> <<pg, IF pg = 1 THEN <<1, 2, 255>> ELSE << >> >>]
+                  evict |-> ev, comp |-> cp, lvl |-> lv, bunprep |-> bu, ps |-> <<pg, IF pg = 1 THEN <<1, 2, 255>> ELSE << >> >>]
 Next == UNCHANGED c
 Spec == Init /\ [][Next]_c
 Emit == PrintT(<<"SCEN", ToJson(c)>>)
